@@ -224,6 +224,13 @@ Proof.
       intros i s Hn Hne. rewrite nth_app_new in Hn. destruct (Nat.eqb i (length (slots d))).
       * inversion Hn; subst; auto.
       * eapply C; eauto.
+  - unfold do_create_fail. destruct (find_empty (slots d) 0) as [i|] eqn:E; simpl.
+    + apply find_empty_spec in E. destruct E as (H0 & s & Hn & Hs). rewrite Z.sub_0_r in Hn.
+      rewrite Hn. simpl. apply checks_ok_upd; auto. unfold nonempty; simpl. tauto.
+    + destruct (HDB_ARRAY_MAX_ELEMENTS <? handle_count d + 1); simpl; auto.
+      intros i s Hn Hne. rewrite nth_app_new in Hn. destruct (Nat.eqb i (length (slots d))).
+      * inversion Hn; subst. exfalso. revert Hne. apply zero_slot_empty.
+      * eapply C; eauto.
   - pose proof (checks_ok_get d h C). destruct (do_get d h) as [[d' r] inst]; auto.
   - pose proof (checks_ok_put d h C). destruct (do_put d h); auto.
   - unfold do_destroy. destruct (lookup d h) as [[i s]|] eqn:L; simpl; auto.
